@@ -561,6 +561,15 @@ func (c *compiler) compileBind(l, r *Query, patterns []*Pattern) error {
 				c.append(&code{op: oppush, v: nil})
 				c.append(&code{op: opstore, v: v})
 			}
+		} else if len(patterns) > 1 {
+			// all the variables are null unless bound by the alternative, also
+			// when another alternative bound them for the previous value
+			for _, p := range patterns {
+				for _, name := range p.variables(nil) {
+					c.append(&code{op: oppush, v: nil})
+					c.append(&code{op: opstore, v: c.pushVariable(name)})
+				}
+			}
 		}
 		if vs, err = c.compilePattern(vs[:0], p); err != nil {
 			return err
